@@ -1097,7 +1097,7 @@ func TestVerifC24(t *testing.T) {
 
 	cfgs := vlib.Pick(r,
 		[]cfg{{3, 3}, {4, 3}},
-		[]cfg{{3, 6}, {4, 5}, {1, 4}, {2, 4}, {5, 5}})
+		[]cfg{{3, 6}, {4, 5}, {1, 4}, {2, 4}, {5, 4}})
 
 	if _, replaying := r.Replaying(); replaying {
 		// only prefixes of the recorded history are expanded (WantPrefix); it may come from the thorough tier
